@@ -19,7 +19,8 @@ PROP = {'rule': 'history / historyLong: rapid state machine that plays the sched
          '(= the history machine) also draw the other spellings (match policy through the compatibility key '
          'pod-group.scheduling.sigs.k8s.io/match-policy alone or next to the primary key, light-weight name label with '
          'annotation min-available) and late bundling (PodGroup gangs of a multi-gang group start stand-alone and get the groups '
-         'annotation by a later PodGroup update; the model uses the group a gang currently declares); classes variant:*. '
+         'annotation by a later PodGroup update; the model uses the group a gang currently declares) and re-submitted jobs (rule groupResubmit: all PodGroups of a '
+         'multi-gang group deleted, pods deleted at the API, same PodGroups created again); classes variant:*. '
          'distinct = FNV-64 of the '
          'configuration and the full history.',
  'assumptions': ['Permit / Reserve failure / AfterPostFilter are only issued for pods whose informer add has reached the gang cache '
@@ -29,8 +30,10 @@ PROP = {'rule': 'history / historyLong: rapid state machine that plays the sched
                  'PodGroup events are delivered synchronously (no lag between the PodGroup API object and the cache)',
                  'for the match policies only-waiting and waiting-and-running the count rule is asserted at every Permit, also after the '
                  "group's first bind (distinct signature ...:after-first-bind); only gangs with policy once-satisfied are exempt once a "
-                 'member of the group has been bound (the model keeps that flag for ever, the cache may forget it: weaker, never '
-                 'stronger)',
+                 'member of the group has been bound. The model forgets that flag when the last gang record of the group vanishes '
+                 '(a group created again under the same names is a new group), except when that last record was an undefined one '
+                 '(pods of a PodGroup gang seen without their PodGroup) or the group was bundled late: there the unchanged cache keeps '
+                 'the record and the model stays sticky (weaker, never stronger)',
                  'a deleted pod that the cache still counts (Permit/PostBind that raced with its informer delete) is counted by the model '
                  'too (tolerated, reported as a class), so the oracle is not stronger than what a race-free cache could know',
                  'terminated (Succeeded/Failed) pods never reach the handlers: the scheduler pod informer filters them',
@@ -44,8 +47,8 @@ PROP = {'rule': 'history / historyLong: rapid state machine that plays the sched
             'files': ['C04/c04_gang_test.go', 'C04/c04_rounds_test.go'],
             'tests': [{'run': 'TestVerifC04History', 'quick': 8000, 'thorough': 50000, 'steps': 40, 'quick_shards': 2,
                        'shrinktime': '15s'},
-                      {'run': 'TestVerifC04Rounds', 'quick': 6000, 'thorough': 30000, 'steps': 50, 'shrinktime': '15s'},
-                      {'run': 'TestVerifC04HistoryVariants', 'quick': 6000, 'thorough': 30000, 'steps': 40, 'shrinktime': '15s'},
+                      {'run': 'TestVerifC04Rounds', 'quick': 6000, 'thorough': 15000, 'steps': 50, 'shrinktime': '15s'},
+                      {'run': 'TestVerifC04HistoryVariants', 'quick': 6000, 'thorough': 15000, 'steps': 40, 'shrinktime': '15s'},
                       {'run': 'TestVerifC04HistoryLong', 'thorough': 10000, 'steps': 120, 'thorough_only': True, 'shrinktime': '20s'},
                       {'run': 'TestVerifC04Concurrent', 'thorough': 3000, 'race': True, 'thorough_only': True, 'shards': 4,
                        'shrinktime': '20s'}]},
